@@ -138,7 +138,8 @@ def check(ctx):
         prim[f.name] = {
             "AES": [ast.unparse(a) for c in names.get("AES", []) for a in c.args],
             "CBC": len(names.get("CBC", [])),
-            "PKCS7": [const(model, f, c.args[0]) if c.args else None for c in names.get("PKCS7", [])],
+            "PKCS7": [(const(model, f, c.args[0]) if isinstance(const(model, f, c.args[0]), int) else ast.unparse(c.args[0])) if c.args else None
+                      for c in names.get("PKCS7", [])],
             "Cipher": len(names.get("Cipher", [])),
         }
     same = prim["encrypt"]["AES"] == prim["decrypt"]["AES"] and len(prim["encrypt"]["AES"]) == 1 \
@@ -148,9 +149,14 @@ def check(ctx):
            "encrypt and decrypt build the same cipher, mode and padding: %s" % prim["encrypt"] if same else
            "encrypt and decrypt disagree: %s vs %s" % (prim["encrypt"], prim["decrypt"]))
     bits = prim["encrypt"]["PKCS7"][0] if prim["encrypt"]["PKCS7"] else None
-    ctx.ob("agree.block-size", aes, "PKCS7(8*N)", N is not None and bits == 8 * N,
-           "padding block (%s bits) equals the IV/block size" % bits if N is not None and bits == 8 * N else
-           "PKCS7(%s) does not match a %s-byte block" % (bits, N))
+    if isinstance(bits, str):
+        sym = "block_size" in bits
+        ctx.ob("agree.block-size", aes, "PKCS7(%s)" % bits, sym, "padding block taken from the cipher's own block_size" if sym else
+               "PKCS7(%s) cannot be related to the %s-byte block" % (bits, N), nontrivial=False)
+    else:
+        ctx.ob("agree.block-size", aes, "PKCS7(8*N)", N is not None and bits == 8 * N,
+               "padding block (%s bits) equals the IV/block size" % bits if N is not None and bits == 8 * N else
+               "PKCS7(%s) does not match a %s-byte block" % (bits, N))
     for f, which in ((enc, ("padder", "encryptor")), (dec, ("unpadder", "decryptor"))):
         names = call_names(f)
         okw = all(w in names for w in which) and not any(w in names for w in (("unpadder", "decryptor") if f is enc else ("padder", "encryptor")))
